@@ -103,7 +103,7 @@ func C04(tier string) {
 		for v := 0; v < 256; v++ {
 			lattice = append(lattice, uint8(v))
 		}
-		r.Rule("all 2^24 RGB at alpha 255 for each of the 16 ordered pairs (complete), plus all 256 alphas x the 4,096-point lattice {0,17,...,255}^3; distinct = (pair, pixel) combinations whose reference value is strictly inside the destination gamut on all channels")
+		r.Rule("all 2^24 RGB at alphas 255, 254, 128, 1 and 0 for each of the 16 ordered pairs (complete), plus all 256 alphas x the 4,096-point lattice {0,17,...,255}^3; distinct = (pair, pixel) combinations whose reference value is strictly inside the destination gamut on all channels")
 	} else {
 		for v := 0; v < 256; v += 4 {
 			lattice = append(lattice, uint8(v))
@@ -133,6 +133,18 @@ func C04(tier string) {
 				}
 			}
 			// alpha sweep
+			if tier == "thorough" {
+				// the complete RGB cube again at four more alphas
+				for _, a := range []uint8{0, 1, 128, 254} {
+					for i := shard; i < 256; i += n {
+						for g := 0; g < 256; g++ {
+							for b := 0; b < 256; b++ {
+								one(color.NRGBA{R: uint8(i), G: uint8(g), B: uint8(b), A: a})
+							}
+						}
+					}
+				}
+			}
 			alphas := []int{0, 1, 2, 127, 128, 254, 255}
 			if tier == "thorough" {
 				alphas = alphas[:0]
